@@ -1,7 +1,12 @@
-(* C03 — no invented samples, nothing lost at full zoom-out.  Headline theorems only. *)
-From Pyro Require Import Model.Base Model.Float53 Model.Segment Proofs.SegmentProofs.
+(* C03 — no invented samples, nothing lost at full zoom-out.  Headline theorems only.
+   Model: Model/Segment.v (time in 10 s slots since year 1).  Hypothesis throughout: every write
+   lies in one epoch block K (10^8 slots = 10^9 s counted from year 1), is non-empty, and carries a
+   non-negative per-slot amount ([valid_write K]). *)
+From Pyro Require Import Model.Base Model.Float53 Model.Segment
+  Proofs.SegmentProofs Proofs.SegStruct Proofs.SegGet.
 Local Open Scope Z_scope.
 
+(* the five-way classification is the set-theoretic relation between node and range *)
 Theorem C03_rel_spec : forall t1 t2 st et, t1 < t2 -> st < et ->
   match relationship t1 t2 st et with
   | Match => t1 = st /\ t2 = et
@@ -12,3 +17,41 @@ Theorem C03_rel_spec : forall t1 t2 st et, t1 < t2 -> st < et ->
   end.
 Proof. exact rel_spec. Qed.
 Print Assumptions C03_rel_spec.
+
+(* every reachable segment is on the bucket grid, has root level <= 8, and every bucket with at
+   least two children is present *)
+Theorem C03_reachable_wf : forall K ws, Forall (valid_write K) ws -> seg_ok K (fst (run_writes ws)).
+Proof. exact run_writes_ok. Qed.
+Print Assumptions C03_reachable_wf.
+
+Theorem C03_two_children_present : forall K ws, Forall (valid_write K) ws ->
+  s_twob (fst (run_writes ws)) = true.
+Proof. exact two_children_present. Qed.
+Print Assumptions C03_two_children_present.
+
+(* the buckets named by get, for any history and any aligned range: pairwise disjoint (in fact in
+   increasing order), inside the range, taken whole (ratio 1/1), present in the tree, and each was
+   named by some earlier put callback (its stored profile exists) *)
+Theorem C03_cover_disjoint_present : forall K ws a b, Forall (valid_write K) ws -> a < b ->
+  let s := fst (run_writes ws) in
+  let g := s_get a b s in
+  ForallOrdPairs (fun x y => gc_end x <= gc_t y) g /\
+  Forall (fun c => a <= gc_t c /\ gc_end c <= b /\ gc_m c = 1 /\ gc_d c = 1 /\
+                   In (gc_key c) (s_pkeys s) /\
+                   In (gc_key c) (map pc_key (hist_cbs ws s_empty))) g.
+Proof. exact get_sound. Qed.
+Print Assumptions C03_cover_disjoint_present.
+
+(* a concrete non-trivial history satisfying the hypotheses: a 25-slot write across a 100-slot
+   boundary followed by a single-slot write, queried on a range that cuts present buckets *)
+Definition ex_ws : list write :=
+  [ {| w_a := 6321559690; w_b := 6321559715; w_smp := 100%N; w_beta := 2 |};
+    {| w_a := 6321559688; w_b := 6321559689; w_smp := 7%N; w_beta := 1 |} ].
+Example C03_nonvacuous :
+  Forall (valid_write 63) ex_ws /\
+  length (s_get 6321559685 6321559712 (fst (run_writes ex_ws))) = 5%nat.
+Proof.
+  split.
+  - repeat constructor; cbn; unfold pow10; cbn; lia.
+  - vm_compute. reflexivity.
+Qed.
